@@ -3,7 +3,7 @@
 All generators return source text (the real reader parses it), so cases are JSON-serialisable and replayable.
 """
 
-SIGS = [('clk', 1), ('a', 1), ('d', 4), ('cnt', 8), ('d_valid', 1), ('d_ready', 1)]
+SIGS = [('clk', 1), ('a', 1), ('d', 4), ('cnt', 8), ('d_valid', 1), ('d_ready', 1), ('e_valid', 1), ('e_ready', 1)]
 
 # definitions every session of the trace-reading fragment starts with (single trace)
 PRELUDE_SINGLE = [
